@@ -34,6 +34,9 @@ def enc2(a):
     return [[enc(v) for v in row] for row in np.asarray(a).tolist()] if a.shape[1] else [[] for _ in range(a.shape[0])]
 
 
+IDX_TYPES = ['int8', 'uint8', 'int16', 'uint16', 'int32', 'uint32', 'int64', 'uint64']
+
+
 class Check(PropertyCheck):
     id = 'C05'
     lean_targets = ['RegionsVerif.Props.C05']
@@ -68,6 +71,11 @@ class Check(PropertyCheck):
                 c['mask'] = [[rng.random() < 0.3 for _ in range(nx)] for _ in range(ny)]
             if op == 'to_image':
                 c['out_dtype'] = rng.choice(['float', 'float', 'int'])
+            # the box indices may be handed over as fixed-width numpy integers (when representable)
+            if rng.random() < 0.3:
+                ok = [t for t in IDX_TYPES if all(np.iinfo(t).min <= v <= np.iinfo(t).max for v in box)]
+                if ok:
+                    c['idx'] = rng.choice(ok)
             return c
 
         ops = ['to_image', 'cutout', 'multiply', 'get_values']
@@ -107,7 +115,8 @@ class Check(PropertyCheck):
         b = case['bbox']
         h, w = b[3] - b[2], b[1] - b[0]
         data = np.array([[float(Fraction(v)) for v in row] for row in case['data']], dtype=float).reshape(h, w)
-        m = RegionMask(data, RegionBoundingBox(*b))
+        T = getattr(np, case['idx']) if case.get('idx') else int
+        m = RegionMask(data, RegionBoundingBox(*[T(v) for v in b]))
         img = self._image(case)
         before_img = np.array(img, copy=True)
         before_data = data.copy()
